@@ -90,7 +90,7 @@ func VerifAdvs(s vw.BGPSession, perm []int) []*bgp.Advertisement {
 // and returns the text templateConfig produces for the final state.
 // VerifRejected is a Set call that must be refused and leave the session as it was: the advertisements Advs
 // followed by an invalid element (Kind 0: an advertisement with 64 communities; Kind 1: the same prefix twice with
-// different local preferences, refused when the configuration is assembled).
+// different local preferences - 100/200, none/100 or 100/none - which no configuration can honour).
 type VerifRejected struct {
 	Session int         `json:"session"`
 	Kind    int         `json:"kind"`
@@ -170,12 +170,19 @@ func VerifRenderR(sessions []vw.BGPSession, order []int, advPerm [][]int, churn 
 			}
 			advs = append(advs, bad)
 		} else {
-			bad.LocalPref = 100
-			bad2 := &bgp.Advertisement{Prefix: mustNet("10.99.0.1/32"), LocalPref: 200}
+			// two requests for one prefix with different local preferences (also: none and some, in both orders)
+			lps := [][2]uint32{{100, 200}, {0, 100}, {100, 0}}[len(r.Advs)%3]
+			bad.LocalPref = lps[0]
+			bad2 := &bgp.Advertisement{Prefix: mustNet("10.99.0.1/32"), LocalPref: lps[1]}
 			advs = append(advs, bad, bad2)
 		}
 		err := handles[i].Set(advs...)
 		drain()
+		if err == nil && r.Kind != 0 {
+			// one neighbor can be offered a prefix with one local preference only: whatever is generated for this
+			// request, one of its two advertisements is not offered as requested
+			return "", fmt.Errorf("Set on %s accepted two advertisements of 10.99.0.1/32 with local preferences %d and %d: neither can be honoured without breaking the other", sessions[i].Name, bad.LocalPref, advs[len(advs)-1].LocalPref)
+		}
 		if err == nil {
 			// accepted after all (then it is simply an earlier request): the final request follows
 			if err := set(i); err != nil {
